@@ -733,6 +733,7 @@ def _report(prop, tier, seed, obls, results, known, t_start, write_baseline, onl
     bounded = [r for r in results if r.get("kind") == "B"]
     discharged = 0
     downgraded = []
+    abstract = {o.name for o in obls if (o.budget or {}).get("abstract")}       # obligations whose VCs contain uninterpreted stand-ins for transcendental functions
     for r in results:
         v = r.get("verdict")
         inst = r["instance"]
@@ -769,6 +770,11 @@ def _report(prop, tier, seed, obls, results, known, t_start, write_baseline, onl
                         br["solver_output"] = r.get("solver_output", "")
                         p = _write_replay(prop, br, "obligation proved on the baseline tree and refuted now; the solver's model did not reproduce, the enlarged bounded stand-in found this failing input on the real uninstrumented code", True)
                         violations.append((inst, p, ""))
+                    elif r.get("obligation") in abstract:
+                        # the solver's model interprets an uninterpreted function (exp ...) freely: "sat" is not a refutation of the real property -> undecided
+                        r["verdict"] = "undecided"
+                        r["reason"] = "refuted only under a free interpretation of an abstracted transcendental function; the model and the enlarged bounded stand-in give no failing input"
+                        undecided.append(r)
                     else:
                         p = _write_replay(prop, r, "obligation was proved on the baseline tree and is now refuted by the solver; neither the model nor the enlarged bounded stand-in gave a failing input on the real code", False)
                         violations.append((inst, p, " no-failing-input-found"))
